@@ -29,7 +29,7 @@ TIMEOUT = {"quick": 900, "thorough": 7200}
 def configs():
     out = []
     for n in range(0, 7):
-        for pat in ("none", "closed", "rohf", "fractional", "aminusb", "aminusb_neg"):
+        for pat in ("none", "closed", "rohf", "nearint", "fractional", "aminusb", "aminusb_neg"):
             out.append(("restricted", n, n, pat))
     for na in range(0, 7):
         for nb in sorted({0, max(na - 1, 0), na, min(na + 2, 6)}):
@@ -52,6 +52,9 @@ def initial(kind, na, nb, pat):
         occs = np.where(np.arange(norb) < (norb + 1) // 2, 2.0, 0.0)
     elif pat == "rohf":
         occs = np.array(([2.0, 1.0, 1.0, 0.0, 0.0, 0.0, 0.0])[:norb]) if norb else np.zeros(0)
+    elif pat == "nearint":
+        # integer occupations up to numerical noise (natural-orbital occupations of a nearly single-determinant state)
+        occs = np.array(([2.0, 1.0 + 1e-9, 1.0 - 3e-10, 1e-9, 0.0, 0.0, 0.0])[:norb]) if norb else np.zeros(0)
     elif pat == "fractional":
         occs = np.array([0.9, 0.6, 0.3, 0.15, 0.05, 0.02, 0.01, 0.7, 0.4, 0.2, 0.1, 0.03, 0.0][:norb]) * (2 if kind == "restricted" else 1)
     elif pat in ("aminusb", "aminusb_neg"):
@@ -70,7 +73,7 @@ def initial(kind, na, nb, pat):
 
 def alphabet(kind, na, nb, full):
     """Assignment symbols (attribute, tag) for a configuration; values are materialised by `value`."""
-    ops = [("occs", "none"), ("occs", "int"), ("occs", "frac"), ("occs", "long"), ("occsa", "int"), ("occsa", "frac"), ("occsa", "long"),
+    ops = [("occs", "none"), ("occs", "int"), ("occs", "frac"), ("occs", "nearint"), ("occs", "long"), ("occsa", "int"), ("occsa", "frac"), ("occsa", "long"),
            ("occsa", "one"), ("occsb", "int"), ("occsb", "frac"), ("occsb", "long"), ("occsb", "one"),
            ("occs_aminusb", "none"), ("occs_aminusb", "valid"), ("occs_aminusb", "long")]
     if full:
@@ -111,6 +114,12 @@ def value(kind, na, nb, attr, tag, mo):
     if tag == "int":
         top = 2.0 if (attr == "occs" and kind == "restricted") else 1.0
         return np.where(np.arange(n) < (n + 1) // 2, top, 0.0)
+    if tag == "nearint":
+        top = 2.0 if (attr == "occs" and kind == "restricted") else 1.0
+        base = np.where(np.arange(n) < (n + 1) // 2, top, 0.0)
+        if n >= 2:
+            base[(n + 1) // 2 - 1] = 1.0
+        return base + np.where(np.arange(n) % 2 == 0, 1e-9, -2e-13) * (base > 0) + 1e-9 * (base == 0) * (np.arange(n) % 3 == 0)
     if tag == "frac":
         scale = 2.0 if (attr == "occs" and kind == "restricted") else 1.0
         return np.linspace(0.95, 0.05, n) * scale if n else np.zeros(0)
@@ -144,12 +153,17 @@ class Violation(Exception):
 
 
 def documented_ab(occs, aminusb):
+    """Admissible (alpha, beta) splittings.  The documentation says "integer occupations" -> high-spin splitting, otherwise
+    halves; for values that are integers only up to noise (< 1e-6) it does not say which, so both are admitted there (the
+    statement's own clauses - sum, electron count, spin polarisation - are checked in every case)."""
     if aminusb is not None:
-        return (occs + aminusb) / 2, (occs - aminusb) / 2
+        return [((occs + aminusb) / 2, (occs - aminusb) / 2)]
+    a = np.clip(occs, 0, 1)
     if (occs == np.round(occs)).all():
-        a = np.clip(occs, 0, 1)
-        return a, occs - a
-    return occs / 2, occs / 2
+        return [(a, occs - a)]
+    if (np.abs(occs - np.round(occs)) < 1e-6).all():
+        return [(a, occs - a), (occs / 2, occs / 2)]
+    return [(occs / 2, occs / 2)]
 
 
 def _raises(fn):
@@ -191,8 +205,9 @@ def check_mo(mo, stats):
         if kind == "restricted":
             if not close(a + b, mo.occs):
                 raise Violation("occ-sum", f"occsa + occsb = {(a + b).tolist()} but occs = {mo.occs.tolist()}")
-            ea, eb = documented_ab(mo.occs, mo.occs_aminusb)
-            if not (close(a, ea) and close(b, eb)):
+            adm = documented_ab(mo.occs, mo.occs_aminusb)
+            if not any(close(a, ea) and close(b, eb) for ea, eb in adm):
+                ea, eb = adm[0]
                 raise Violation("occ-rules", f"occsa/occsb {a.tolist()}/{b.tolist()} differ from the documented rules {ea.tolist()}/{eb.tolist()}")
         else:
             if not np.array_equal(np.concatenate([a, b]), mo.occs):
